@@ -265,4 +265,21 @@ example : (vkey 100 exDb).map (·.key) = [[97], [98], [100]] := by decide +kerne
 the expired list would be shown -/
 example : (vkey (100 / 1000) exDb).map (·.key) = [[97], [98], [99], [100]] := by decide +kernel
 
+/-! ### the rendered time columns: `datetime(ms / 1000, 'unixepoch')`
+
+`Model.View.sqliteDatetime` is the model (civil-from-days on the proleptic Gregorian calendar); the
+judge compares every (raw milliseconds, rendered text) pair the views show with it. Closed facts,
+checked by kernel evaluation — leap day, non-leap century, both ends of SQLite's range, truncation
+toward zero below the epoch, NULL outside the range. (A round-trip theorem for all days is not
+proved.) -/
+theorem datetime_landmarks :
+    sqliteDatetime 0 = some "1970-01-01 00:00:00" ∧
+    sqliteDatetime 951782400000 = some "2000-02-29 00:00:00" ∧
+    sqliteDatetime 4107542400000 = some "2100-03-01 00:00:00" ∧
+    sqliteDatetime 253402300799999 = some "9999-12-31 23:59:59" ∧
+    sqliteDatetime (-62167219200000) = some "0000-01-01 00:00:00" ∧
+    sqliteDatetime (-1) = some "1970-01-01 00:00:00" ∧
+    sqliteDatetime (-1000) = some "1969-12-31 23:59:59" ∧
+    sqliteDatetime 253402300800000 = none := by decide +kernel
+
 end Redka.Props.C11views
